@@ -40,6 +40,11 @@ def scenarios(rep, tier, seed):
         if not K.materialise(scn):
             continue
         scns.append(scn)
+    # KNN-supervised on pre-computed matrices with permuted index arrays (queries = rows of the matrix)
+    for i in range(400 if thorough else 60):
+        scn = K.knn_pre_scenario(rng, metric=rng.choice(mets), lattice=(i % 3 == 0))
+        if scn:
+            scns.append(scn)
     return scns
 
 
